@@ -65,7 +65,11 @@ fn selfcheck(runs: u64) -> i32 {
         }
     }
     println!("selfcheck: VERIF_SEED={seed}, {runs} run indices per property, 3 partitions x 2 repetitions");
-    for prop in ["C15", "C20", "C16"] {
+    #[cfg(feature = "shuttled")]
+    let engines = ["C15", "C20", "C16", c20conc::ENGINE];
+    #[cfg(not(feature = "shuttled"))]
+    let engines = ["C15", "C20", "C16"];
+    for prop in engines {
         let mut reference: Option<std::collections::BTreeMap<u64, u64>> = None;
         let mut executions = 0;
         for (block, workers) in [(runs, 1usize), ((runs / 8).max(1), 4), (50, 16)] {
